@@ -245,6 +245,10 @@ func verifDumpReader(w *bufio.Writer, r *Reader, qs [][2]string, ids []uint64) {
 	}
 	sort.Slice(sorted, func(a, b int) bool { return sorted[a] < sorted[b] })
 	fmt.Fprintf(w, "N %d %d %d %d\n", r.StreamCount(), len(idmap), r.MinStreamID(), r.MaxStreamID())
+	// per-file summary NewReader keeps (used by the search to skip whole files): min/max first and last packet time, absolute ns
+	ref := r.ReferenceTime.UnixNano()
+	fmt.Fprintf(w, "X %d %d %d %d\n", ref+int64(r.firstPacketTimeNS.min), ref+int64(r.firstPacketTimeNS.max),
+		ref+int64(r.lastPacketTimeNS.min), ref+int64(r.lastPacketTimeNS.max))
 	fmt.Fprintf(w, "IDS")
 	for _, id := range sorted {
 		fmt.Fprintf(w, " %d", id)
